@@ -25,8 +25,12 @@ type Op struct {
 	Scope2 string   `json:"scope2,omitempty"`
 	Els2   []string `json:"els2,omitempty"`
 	ElRe2  string   `json:"elre2,omitempty"`
-	B      bool     `json:"b,omitempty"`
-	Ints   []int    `json:"ints,omitempty"` // sandbox values
+	// matcher set on the builder between the two scope calls (same kind as the first one)
+	Re2   string   `json:"re2,omitempty"`
+	Enum2 []string `json:"enum2,omitempty"`
+	Fn2   string   `json:"fn2,omitempty"`
+	B     bool     `json:"b,omitempty"`
+	Ints  []int    `json:"ints,omitempty"` // sandbox values
 }
 
 type Recipe struct {
@@ -68,6 +72,9 @@ func (o Op) String() string {
 	case "glob":
 		sb.WriteString(".THEN.globally")
 	}
+	if o.Re2 != "" || len(o.Enum2) > 0 || o.Fn2 != "" {
+		fmt.Fprintf(&sb, "[matcher2 %s%v%s]", o.Re2, o.Enum2, o.Fn2)
+	}
 	if len(o.Ints) > 0 {
 		fmt.Fprintf(&sb, "%v", o.Ints)
 	}
@@ -78,6 +85,28 @@ func (o Op) String() string {
 		fmt.Fprintf(&sb, "(%v)", o.B)
 	}
 	return sb.String()
+}
+
+// SplitReuse turns a chain whose builder value is used for two scope calls into the two
+// independent chains it stands for (nil when the op has no second scope call).
+func (o Op) SplitReuse() []Op {
+	if o.Scope2 == "" {
+		return nil
+	}
+	a, b := o, o
+	a.Scope2, a.Els2, a.ElRe2, a.Re2, a.Enum2, a.Fn2 = "", nil, "", "", nil, ""
+	b.Scope, b.Els, b.ElRe = o.Scope2, o.Els2, o.ElRe2
+	b.Scope2, b.Els2, b.ElRe2, b.Re2, b.Enum2, b.Fn2 = "", nil, "", "", nil, ""
+	if o.Re2 != "" {
+		b.Re = o.Re2
+	}
+	if len(o.Enum2) > 0 {
+		b.Enum = o.Enum2
+	}
+	if o.Fn2 != "" {
+		b.Fn = o.Fn2
+	}
+	return []Op{a, b}
 }
 
 // cbHook is called at the start of every harness-supplied callback; the C13
@@ -255,6 +284,9 @@ func (in *Instance) Steps(o Op) []func() {
 		default:
 			panic("harness: attr chain without scope")
 		}
+		if o.Scope2 != "" && o.Re2 != "" {
+			steps = append(steps, func() { b = b.Matching(in.re(o.Re2)) })
+		}
 		switch o.Scope2 {
 		case "els":
 			steps = append(steps, func() { b.OnElements(o.Els2...) })
@@ -284,6 +316,24 @@ func (in *Instance) Steps(o Op) []func() {
 			steps = append(steps, func() { b.Globally() })
 		default:
 			panic("harness: style chain without scope")
+		}
+		if o.Scope2 != "" {
+			switch {
+			case o.Fn2 != "":
+				steps = append(steps, func() { b = b.MatchingHandler(styleHandlerByName(o.Fn2)) })
+			case len(o.Enum2) > 0:
+				steps = append(steps, func() { b = b.MatchingEnum(o.Enum2...) })
+			case o.Re2 != "":
+				steps = append(steps, func() { b = b.Matching(in.re(o.Re2)) })
+			}
+			switch o.Scope2 {
+			case "els":
+				steps = append(steps, func() { b.OnElements(o.Els2...) })
+			case "elsre":
+				steps = append(steps, func() { b.OnElementsMatching(in.re(o.ElRe2)) })
+			case "glob":
+				steps = append(steps, func() { b.Globally() })
+			}
 		}
 		return steps
 	case "AllowURLSchemes":
